@@ -435,19 +435,31 @@ func (fr *Frame) lookupName(name string, e *Env) (TV, bool) {
 			}
 		}
 	}
-	// address-taken locals / named results / captured variables
+	// address-taken locals / named results / captured variables (a dominating one is preferred)
+	var anyAlloc, domAlloc *ssa.Alloc
 	for _, b := range fn.Blocks {
 		for _, in := range b.Instrs {
 			if a, ok := in.(*ssa.Alloc); ok && a.Comment == name {
 				if _, done := fr.vals[a]; !done {
 					continue
 				}
-				l := fr.locOf(a)
-				ne := *fr
-				ne.st = e.st
-				return TV{T: ne.load(l), Ty: a.Type().Underlying().(*types.Pointer).Elem()}, true
+				if anyAlloc == nil {
+					anyAlloc = a
+				}
+				if e.at != nil && b.Dominates(e.at) && (domAlloc == nil || domDepth(b) >= domDepth(domAlloc.Block())) {
+					domAlloc = a
+				}
 			}
 		}
+	}
+	if domAlloc != nil {
+		anyAlloc = domAlloc
+	}
+	if anyAlloc != nil {
+		l := fr.locOf(anyAlloc)
+		ne := *fr
+		ne.st = e.st
+		return TV{T: ne.load(l), Ty: anyAlloc.Type().Underlying().(*types.Pointer).Elem()}, true
 	}
 	for _, fv := range fn.FreeVars {
 		if fv.Name() == name {
